@@ -8,7 +8,10 @@
 (*   font   [name, size, bold, italic, underline, strike, color, sch]      *)
 (*   fill   [pattern, fg, bg]                                              *)
 (*   border [left, right, top, bottom, diagonal : [style, color], up, down]*)
-(*   align  [h, v, wrap, rot]     numFmt  code      prot [locked, hidden]  *)
+(*   align  [h, v, wrap, rot]     prot [locked, hidden]                    *)
+(*   numFmt [code, id]   id = the numFmtId the format carries: 0 for a     *)
+(*          format made through the API (placeholder) or a built-in one,   *)
+(*          175 + its position in the numFmts table it was loaded from     *)
 (* colours are [argb, theme, tint] (NoColor = none); sizes, tints, heights *)
 (* and widths are decimal digit strings (they only travel, nothing is      *)
 (* computed from them).  Eff(s) is the *effective* formatting: a component *)
@@ -28,12 +31,18 @@
 (* The key of a component is a parameter: "exact" (intended: the component *)
 (* itself) or "concat" (the fields of a font written one after the other   *)
 (* without separators, so that the end of the name and the size run into   *)
-(* each other).  LoadFile has two switches for what a reader may do to a   *)
-(* component table on the way in (identity in the intended design).        *)
+(* each other) or "trustid" (a custom number format is looked up by the id *)
+(* it carries, without comparing codes).  LoadFile has two switches for     *)
+(* what a reader may do to a component table on the way in (identity in    *)
+(* the intended design).                                                   *)
+(* There are NBooks workbook objects: a Style read from one (a template    *)
+(* that was saved and loaded, whose styles therefore carry the ids of ITS  *)
+(* tables) can be set on a carrier of another one (Import).                *)
 (***************************************************************************)
 EXTENDS Naturals, Sequences, FiniteSets, TLC, SequencesExt
 
-CONSTANT KeyMode        \* "exact" | "concat": the design that the actions below use
+CONSTANTS KeyMode,      \* "exact" | "concat" | "trustid": the design that the actions below use
+          NBooks        \* number of workbook objects
 
 NoColor == [argb |-> "", theme |-> 0, tint |-> "0"]
 Edge0   == [style |-> "none", color |-> NoColor]
@@ -53,7 +62,7 @@ EffFont(f) == [name |-> f.name, size |-> f.size, bold |-> f.bold, italic |-> f.i
                strike |-> f.strike, color |-> f.color]
 Eff(s) == [font |-> EffFont(Opt(s.font, DefaultFont)), fill |-> Opt(s.fill, DefaultFill),
            border |-> Opt(s.border, DefaultBorder), align |-> Opt(s.align, DefaultAlign),
-           numFmt |-> Opt(s.numFmt, "General"), prot |-> Opt(s.prot, DefaultProt)]
+           numFmt |-> IF s.numFmt = <<>> THEN "General" ELSE s.numFmt[1].code, prot |-> Opt(s.prot, DefaultProt)]
 PlainEff == Eff(EmptyStyle)
 NoHeight == "0"          \* Row::get_height of a row without a height
 StdWidth == "8.38"       \* Column::get_width of a column without a width
@@ -79,6 +88,20 @@ SetRowB(B, r, ht, hid, s) ==
   IN [B EXCEPT !.rows = (@ \ old) \cup {[r |-> r, ht |-> h, hid |-> hid, sty |-> s]}]
 SetColB(B, c, w, hid, s) ==
   [B EXCEPT !.cols = {x \in @ : x.c # c} \cup {[c |-> c, w |-> w, hid |-> hid, sty |-> s]}]
+(* only the style of a row / column (get_row_dimension_mut(r).set_style(s)): dimensions stay *)
+SetRowStyleB(B, r, s) ==
+  LET old == {x \in B.rows : x.r = r}
+  IN IF old = {} THEN SetRowB(B, r, NoHeight, FALSE, s)
+     ELSE [B EXCEPT !.rows = (@ \ old) \cup {[x EXCEPT !.sty = s] : x \in old}]
+SetColStyleB(B, c, s) ==
+  LET old == {x \in B.cols : x.c = c}
+  IN IF old = {} THEN SetColB(B, c, StdWidth, FALSE, s)
+     ELSE [B EXCEPT !.cols = (@ \ old) \cup {[x EXCEPT !.sty = s] : x \in old}]
+(* Worksheet::get_style: the style of the cell, the empty style where there is no cell *)
+StyleAt(B, r, c) == LET m == {x \in B.cells : x.r = r /\ x.c = c} IN IF m = {} THEN EmptyStyle ELSE (CHOOSE x \in m : TRUE).sty
+(* an import item [k, r, c, r2, c2]: target carrier (cell (r, c), row r or column c) <- style s *)
+ImportB(B, it, s) == IF it.k = "cell" THEN SetCellB(B, it.r, it.c, s)
+                     ELSE IF it.k = "row" THEN SetRowStyleB(B, it.r, s) ELSE SetColStyleB(B, it.c, s)
 
 (* ---- the stylesheet ---------------------------------------------------------- *)
 MinOfSet(S) == CHOOSE x \in S : \A y \in S : x <= y
@@ -117,10 +140,17 @@ InternComp(tbl, opt, K(_)) ==
   IF opt = <<>> THEN [t |-> tbl, i |-> 1]
   ELSE LET h == FirstIdx(tbl, K, opt[1])
        IN IF h # 0 THEN [t |-> tbl, i |-> h] ELSE [t |-> Append(tbl, opt[1]), i |-> Len(tbl) + 1]
-InternNum(tbl, opt) ==
+(* NumberingFormats::set_style: built-in codes keep their id; a custom code is looked up by its code (the id *)
+(* the format carries says nothing about THIS table), else appended under the next id.  The numFmts table   *)
+(* holds the custom codes, entry i has id 175 + i.                                                          *)
+FirstCustomId == 176
+NumOf(code) == [code |-> code, id |-> 0]
+InternNum(tbl, opt, km) ==
   IF opt = <<>> THEN [t |-> tbl, n |-> GeneralNum]
-  ELSE IF opt[1] \in BuiltinCodes THEN [t |-> tbl, n |-> [k |-> "b", code |-> opt[1], i |-> 0]]
-  ELSE LET c == InternComp(tbl, opt, Same) IN [t |-> c.t, n |-> [k |-> "c", code |-> "", i |-> c.i]]
+  ELSE IF opt[1].code \in BuiltinCodes THEN [t |-> tbl, n |-> [k |-> "b", code |-> opt[1].code, i |-> 0]]
+  ELSE IF km = "trustid" /\ opt[1].id >= FirstCustomId /\ (opt[1].id - FirstCustomId + 1) \in DOMAIN tbl
+  THEN [t |-> tbl, n |-> [k |-> "c", code |-> "", i |-> opt[1].id - FirstCustomId + 1]]
+  ELSE LET c == InternComp(tbl, <<opt[1].code>>, Same) IN [t |-> c.t, n |-> [k |-> "c", code |-> "", i |-> c.i]]
 
 (* Stylesheet::set_style: [ss |-> stylesheet afterwards, x |-> xf index, 0-based] *)
 Intern(ss, s, km) ==
@@ -130,19 +160,21 @@ Intern(ss, s, km) ==
        ELSE LET fo == InternComp(ss.fonts, s.font, LAMBDA f : FontKey(km, f))
                 fi == InternComp(ss.fills, s.fill, Same)
                 bo == InternComp(ss.borders, s.border, Same)
-                nu == InternNum(ss.numFmts, s.numFmt)
+                nu == InternNum(ss.numFmts, s.numFmt, km)
             IN [ss |-> [fonts |-> fo.t, fills |-> fi.t, borders |-> bo.t, numFmts |-> nu.t,
                         xfs |-> Append(ss.xfs, Xf(fo.i, fi.i, bo.i, nu.n, s)), made |-> Append(ss.made, s)],
                 x |-> Len(ss.xfs)]
 
 Apply(flag) == IF flag = <<>> THEN TRUE ELSE flag[1]
 NumCode(ss, n) == IF n.k = "b" THEN n.code ELSE ss.numFmts[n.i]
+(* the format as the reader hands it out: a custom one carries the id it has in this table *)
+NumRead(ss, n) == [code |-> NumCode(ss, n), id |-> IF n.k = "b" THEN 0 ELSE FirstCustomId + n.i - 1]
 Reconstruct(ss, xf) ==
   [font   |-> IF Apply(xf.aFont) THEN <<ss.fonts[xf.font]>> ELSE <<>>,
    fill   |-> IF Apply(xf.aFill) THEN <<ss.fills[xf.fill]>> ELSE <<>>,
    border |-> IF Apply(xf.aBorder) THEN <<ss.borders[xf.border]>> ELSE <<>>,
    align  |-> IF Apply(xf.aAlign) THEN xf.align ELSE <<>>,
-   numFmt |-> IF Apply(xf.aNum) THEN <<NumCode(ss, xf.num)>> ELSE <<>>,
+   numFmt |-> IF Apply(xf.aNum) THEN <<NumRead(ss, xf.num)>> ELSE <<>>,
    prot   |-> IF Apply(xf.aProt) THEN xf.prot ELSE <<>>]
 (* the style a carrier with xf index x (0-based) gets on load; no index attribute is written for 0 *)
 StyleOfIdx(ss, x) == IF x = 0 THEN EmptyStyle ELSE Reconstruct(ss, ss.xfs[x + 1])
@@ -213,51 +245,58 @@ SSOK(s) == /\ Len(s.made) = Len(s.xfs) /\ Len(s.fonts) >= 1 /\ s.fonts[1] = Defa
                                       /\ (s.xfs[i].num.k = "c" => s.xfs[i].num.i \in DOMAIN s.numFmts)
 
 ----------------------------------------------------------------------------
-VARIABLES book,    \* the workbook object
-          given,   \* ghost: the same carriers with the styles exactly as they were assigned
-          ss,      \* its stylesheet (tables of a new workbook, or of the file it was loaded from)
-          file,    \* <<>> or <<the last file written>>
-          sizes    \* table sizes of the files written since the last assignment
-vars == <<book, given, ss, file, sizes>>
-
-Init == book = EmptyBook /\ given = EmptyBook /\ ss = NewSS /\ file = <<>> /\ sizes = <<>>
-
-SetCell(r, c, s) ==
-  /\ book' = SetCellB(book, r, c, s) /\ given' = SetCellB(given, r, c, s)
-  /\ sizes' = <<>> /\ UNCHANGED <<ss, file>>
-SetRow(r, ht, hid, s) ==
-  /\ book' = SetRowB(book, r, ht, hid, s) /\ given' = SetRowB(given, r, ht, hid, s)
-  /\ sizes' = <<>> /\ UNCHANGED <<ss, file>>
-SetCol(c, w, hid, s) ==
-  /\ book' = SetColB(book, c, w, hid, s) /\ given' = SetColB(given, c, w, hid, s)
-  /\ sizes' = <<>> /\ UNCHANGED <<ss, file>>
+(* a workbook object:                                                                            *)
+(*   book   the carriers          given  ghost: the same carriers with the styles as assigned    *)
+(*   ss     its stylesheet (tables of a new workbook, or of the file it was loaded from)         *)
+(*   file   <<>> or <<the last file written>>                                                    *)
+(*   sizes  table sizes of the files written since the last assignment                           *)
+NewWb == [book |-> EmptyBook, given |-> EmptyBook, ss |-> NewSS, file |-> <<>>, sizes |-> <<>>]
+SetCellW(W, r, c, s)      == [W EXCEPT !.book = SetCellB(@, r, c, s), !.given = SetCellB(@, r, c, s), !.sizes = <<>>]
+SetRowW(W, r, ht, hid, s) == [W EXCEPT !.book = SetRowB(@, r, ht, hid, s), !.given = SetRowB(@, r, ht, hid, s), !.sizes = <<>>]
+SetColW(W, c, w, hid, s)  == [W EXCEPT !.book = SetColB(@, c, w, hid, s), !.given = SetColB(@, c, w, hid, s), !.sizes = <<>>]
+ImportW(W, it, s)         == [W EXCEPT !.book = ImportB(@, it, s), !.given = ImportB(@, it, s), !.sizes = <<>>]
 (* write_writer works on a copy of the stylesheet: the workbook object does not change *)
-Save ==
-  /\ file' = <<SaveBook(book, ss, KeyMode)>>
-  /\ sizes' = Append(sizes, Sizes(file'[1].ss))
-  /\ UNCHANGED <<book, given, ss>>
-Reload ==
-  /\ file # <<>>
-  /\ LET L == Load(file[1]) IN book' = L.book /\ ss' = L.ss
-  /\ UNCHANGED <<given, file, sizes>>
+SaveW(W, km) == LET F == SaveBook(W.book, W.ss, km) IN [W EXCEPT !.file = <<F>>, !.sizes = Append(@, Sizes(F.ss))]
+ReloadW(W)   == LET L == Load(W.file[1]) IN [W EXCEPT !.book = L.book, !.ss = L.ss]
+
+VARIABLE wbs     \* the workbook objects, 1..NBooks
+vars == <<wbs>>
+
+Init == wbs = [w \in 1..NBooks |-> NewWb]
+
+SetCell(w, r, c, s)      == wbs' = [wbs EXCEPT ![w] = SetCellW(@, r, c, s)]
+SetRow(w, r, ht, hid, s) == wbs' = [wbs EXCEPT ![w] = SetRowW(@, r, ht, hid, s)]
+SetCol(w, c, x, hid, s)  == wbs' = [wbs EXCEPT ![w] = SetColW(@, c, x, hid, s)]
+(* the Style object of cell (it.r2, it.c2) of workbook v is set on a carrier of workbook w *)
+Import(w, v, it)         == wbs' = [wbs EXCEPT ![w] = ImportW(@, it, StyleAt(wbs[v].book, it.r2, it.c2))]
+Save(w)   == wbs' = [wbs EXCEPT ![w] = SaveW(@, KeyMode)]
+Reload(w) == wbs[w].file # <<>> /\ wbs' = [wbs EXCEPT ![w] = ReloadW(@)]
 
 (* ---- the properties of C05 ------------------------------------------------------ *)
 (* every carrier shows the effective formatting and the dimensions it was given *)
-Faithful == ProjBook(book) = ProjBook(given)
-DimsKept == DimsOf(book) = DimsOf(given)
+FaithfulW(W) == ProjBook(W.book) = ProjBook(W.given)
+DimsKeptW(W) == DimsOf(W.book) = DimsOf(W.given)
 (* in the file: the xf a carrier points to reconstructs to the carrier's effective formatting ... *)
-FaithfulFile == file # <<>> =>
-  \A i \in DOMAIN file[1].items :
-       Eff(StyleOfIdx(file[1].ss, file[1].items[i].x)) = Eff(file[1].items[i].sty)
+FaithfulFileW(W) == W.file # <<>> =>
+  \A i \in DOMAIN W.file[1].items :
+       Eff(StyleOfIdx(W.file[1].ss, W.file[1].items[i].x)) = Eff(W.file[1].items[i].sty)
 (* ... and two carriers with different formatting never point to xfs that read back the same *)
-NoMerge == file # <<>> =>
-  \A i, j \in DOMAIN file[1].items :
-     Eff(file[1].items[i].sty) # Eff(file[1].items[j].sty) =>
-        Eff(StyleOfIdx(file[1].ss, file[1].items[i].x)) # Eff(StyleOfIdx(file[1].ss, file[1].items[j].x))
+NoMergeW(W) == W.file # <<>> =>
+  \A i, j \in DOMAIN W.file[1].items :
+     Eff(W.file[1].items[i].sty) # Eff(W.file[1].items[j].sty) =>
+        Eff(StyleOfIdx(W.file[1].ss, W.file[1].items[i].x)) # Eff(StyleOfIdx(W.file[1].ss, W.file[1].items[j].x))
 (* saving again (after a reload, without an assignment in between) does not grow the tables *)
 SizesLeq(a, b) == \A k \in DOMAIN a : a[k] <= b[k]
-NoGrowth == \A i, j \in DOMAIN sizes : i < j => SizesLeq(sizes[j], sizes[i])
+NoGrowthW(W) == \A i, j \in DOMAIN W.sizes : i < j => SizesLeq(W.sizes[j], W.sizes[i])
 (* (the intended design even keeps them equal) *)
-StableSizes == \A i, j \in DOMAIN sizes : sizes[i] = sizes[j]
-WellFormed == BookOK(book) /\ SSOK(ss) /\ (file # <<>> => SSOK(file[1].ss))
+StableSizesW(W) == \A i, j \in DOMAIN W.sizes : W.sizes[i] = W.sizes[j]
+WellFormedW(W) == BookOK(W.book) /\ SSOK(W.ss) /\ (W.file # <<>> => SSOK(W.file[1].ss))
+
+Faithful     == \A w \in DOMAIN wbs : FaithfulW(wbs[w])
+DimsKept     == \A w \in DOMAIN wbs : DimsKeptW(wbs[w])
+FaithfulFile == \A w \in DOMAIN wbs : FaithfulFileW(wbs[w])
+NoMerge      == \A w \in DOMAIN wbs : NoMergeW(wbs[w])
+NoGrowth     == \A w \in DOMAIN wbs : NoGrowthW(wbs[w])
+StableSizes  == \A w \in DOMAIN wbs : StableSizesW(wbs[w])
+WellFormed   == \A w \in DOMAIN wbs : WellFormedW(wbs[w])
 =============================================================================
